@@ -48,7 +48,7 @@ TEXT = {
         "DESIGN.md 3 (W4), 4 (C05)",
     ),
     "C09": (
-        "The cross-path clause decided by simulation: along every simulated signing ceremony the digest via PrecomputedTxData, via psbt.ecdsa_sig_hash / taproot_sig_hash and via a PsbtView streamed from a simulated file (short reads, EIO on the n-th read, truncation; a caller writing into the copies the view handed out) equals the digest computed directly, for every input and hash type in use and an explicitly named one; under file faults the view refuses or agrees. The direct digest itself is held, as sampled evidence, to a transcription of the legacy / BIP143 / BIP341 texts.",
+        "The cross-path clause decided by simulation: along every simulated signing ceremony the digest via PrecomputedTxData, via psbt.ecdsa_sig_hash / taproot_sig_hash and via a PsbtView streamed from a simulated file (short reads, EIO on the n-th read, truncation; a caller writing into the copies the view handed out) equals the digest computed directly, for every input and hash type in use and an explicitly named one; under file faults the view refuses or agrees. The direct digest itself is held, as sampled evidence, to a transcription of the legacy / BIP143 / BIP341 texts; tapleaves with OP_CODESEPARATORs are spent with signatures over the transcribed digest for each position, which the engine (deriving the position itself) must accept, and refuse for another position.",
         "Equality with the text of the legacy / BIP143 / BIP341 algorithms is sampled, not decided: half of the direct digests are compared with a transcription of the defining texts (btcsim/ref/sighash.py: every hash type, the SINGLE out-of-range constant, OP_CODESEPARATOR removal by opcode walk, taproot with and without an annex); FindAndDelete of the signature is not covered.",
         "deterministic simulation: file-fault injection under a streamed PSBT view inside a multi-party ceremony; oracle = direct computation",
         "DESIGN.md 3 (W5), 4 (C09)",
